@@ -65,6 +65,7 @@ type fnCtx struct {
 	preHeaps     bool
 	oldWrites    map[string]bool
 	locWrites    map[string][]string
+	curLoopState *State
 	locals       map[string]Val
 	localIsAddr  map[string]bool
 	globalVals map[*ssa.Global]Val
@@ -724,12 +725,34 @@ func (fc *fnCtx) writeSet(blocks map[*ssa.BasicBlock]bool) (names map[string]boo
 				if fc.callWrites(ins.Common(), tmp) {
 					all = true
 				}
+				// precise targets: the callee's assigns clause names specific locations and all arguments are loop-invariant
+				locs, precise := fc.callLocWrites(ins.Common(), blocks)
 				for k := range tmp {
 					names[k] = true
-					fc.oldWrites[k] = true
+					if precise && len(locs[k]) > 0 {
+						fc.locWrites[k] = append(fc.locWrites[k], locs[k]...)
+					} else {
+						fc.oldWrites[k] = true
+					}
 				}
 			case *ssa.Defer, *ssa.Go, *ssa.Send, *ssa.Select:
 				all = true
+			}
+		}
+	}
+	// a location key that reads a heap written in the loop is not loop-invariant: fall back to a full havoc
+	for h, keys := range fc.locWrites {
+		for _, k := range keys {
+			syms := map[string]bool{}
+			symbolsOf(k, syms)
+			for sname := range syms {
+				base := trimBars(sname)
+				if i := strings.IndexAny(base, "@~"); i > 0 {
+					base = base[:i]
+				}
+				if names[Sym(base)] || names[base] {
+					fc.oldWrites[h] = true
+				}
 			}
 		}
 	}
@@ -866,7 +889,9 @@ func (fc *fnCtx) loopHeader(li *loopInfo, st *State) {
 		}
 	}
 	// 3. havoc
+	fc.curLoopState = st.clone()
 	names, all := fc.writeSet(li.body)
+	fc.curLoopState = nil
 	if all {
 		fc.havocAll(st)
 		fc.note("loop %d: body may write any heap (abstract call); whole heap havoc'd at header", li.ord)
@@ -1101,6 +1126,9 @@ func (fc *fnCtx) doReturn(ins *ssa.Return, st *State) {
 	reachBefore := st.reach
 	env := fc.envAt(st, fc.entry)
 	env.results = res
+	for _, c := range fc.con.Defines {
+		fc.assume(st, fc.evalAssume(env, c))
+	}
 	for _, c := range fc.con.Ensures {
 		fc.oblige(st, "post", fc.evalClause(env, c), ins.Pos(), clauseProps(c, fc.propsAll), c.Text)
 	}
